@@ -296,4 +296,148 @@ theorem final_is_last_submitted_partial (subs : List Upd) (g0 : Group) (sched : 
   rw [hg, hP]
   rfl
 
+/-! ### dispatcher (re)start: the initial load
+
+  The spec with an initial load: the snapshot versions are older than everything on the subscription, so once
+  everything has been processed an alert's group holds the last SUBSCRIBED version, else its snapshot version,
+  else what it held before.  True of the code as it is (snapshot routed before `run(it)` starts) for every
+  schedule; false, with a three-step schedule, as soon as the snapshot is routed while the workers run. -/
+namespace Load
+
+theorem loadAll_spec (snap : List Upd) : ∀ (g : Group) (f : Nat), loadAll snap g f = lastOr (ofFp f snap) (g f) := by
+  induction snap with
+  | nil => intro g f; simp [loadAll, ofFp, lastOr]
+  | cons u rest ih =>
+    intro g f
+    simp only [loadAll]
+    rw [ih]
+    by_cases hf : u.fp = f
+    · subst hf
+      rw [ofFp_cons_eq]
+      cases hr : (ofFp u.fp rest).getLast? with
+      | none =>
+        have : ofFp u.fp rest = [] := by simpa using hr
+        simp [lastOr, this, Group.set]
+      | some x =>
+        have hne : ofFp u.fp rest ≠ [] := by intro h; simp [h] at hr
+        simp [lastOr, hr, List.getLast?_cons_of_ne_nil hne]
+    · rw [ofFp_cons_ne f u rest hf]
+      have : f ≠ u.fp := fun e => hf e.symm
+      simp [Group.set, this]
+
+/-- a sequential run that finishes the snapshot is: route the whole snapshot, then a run of the workers alone -/
+theorem seq_decompose (owner : Nat → Nat) : ∀ (sched : List Step) (s s' : State),
+    run false owner s sched = some s' → s'.snap = [] →
+    ∃ sched', Workers.run owner { s.w with group := loadAll s.snap s.w.group } sched' = some s'.w := by
+  intro sched
+  induction sched with
+  | nil =>
+    intro s s' h hs
+    simp only [run, Option.some.injEq] at h
+    subst h
+    exact ⟨[], by simp [Workers.run, hs, loadAll]⟩
+  | cons st rest ih =>
+    intro s s' h hs
+    simp only [run] at h
+    cases hst : step false owner s st with
+    | none => simp [hst] at h
+    | some s1 =>
+      simp only [hst] at h
+      obtain ⟨sched', hr⟩ := ih s1 s' h hs
+      cases st with
+      | load =>
+        simp only [step] at hst
+        cases hsn : s.snap with
+        | nil => simp [hsn] at hst
+        | cons u r =>
+          simp only [hsn, Option.some.injEq] at hst
+          subst hst
+          exact ⟨sched', by simpa [loadAll] using hr⟩
+      | work wst =>
+        simp only [step, Bool.false_or] at hst
+        by_cases he : s.snap.isEmpty = true
+        · simp only [he, if_true] at hst
+          cases hw : Workers.step owner s.w wst with
+          | none => simp [hw] at hst
+          | some w' =>
+            simp only [hw, Option.some.injEq] at hst
+            subst hst
+            have hnil : s.snap = [] := by simpa using he
+            simp only [hnil, loadAll] at hr ⊢
+            exact ⟨wst :: sched', by simp only [Workers.run, hw]; exact hr⟩
+        · simp [he] at hst
+
+/-- **final_is_last_submitted** with an initial load, for the code as it is (the snapshot is routed before the
+    distributor and the workers start): for every owner function, snapshot, subscription sequence and EVERY
+    schedule, once everything has been processed each alert's group holds the version submitted last — the last
+    one on the subscription, else the snapshot's, else what the group held. -/
+theorem final_is_last_submitted (owner : Nat → Nat) (snap subs : List Upd) (g0 : Group) (sched : List Step)
+    (s : State) (hr : run false owner (init snap subs g0) sched = some s) (hq : s.quiescent) (f : Nat) :
+    s.w.group f = lastOr (ofFp f subs) (lastOr (ofFp f snap) (g0 f)) := by
+  obtain ⟨hsn, hwq⟩ := hq
+  obtain ⟨sched', hr'⟩ := seq_decompose owner sched _ s hr hsn
+  have := Workers.final_is_last_submitted owner subs (loadAll snap g0) sched' s.w hr' hwq f
+  rw [this, loadAll_spec]
+
+/-- restart: a fresh dispatcher (empty groups) on a provider holding `snap` -/
+theorem restart_holds_latest (owner : Nat → Nat) (snap subs : List Upd) (sched : List Step)
+    (s : State) (hr : run false owner (init snap subs (fun _ => none)) sched = some s) (hq : s.quiescent) (f : Nat) :
+    s.w.group f = lastOr (ofFp f (snap ++ subs)) none := by
+  rw [final_is_last_submitted owner snap subs _ sched s hr hq f, ofFp_append]
+  cases hs : (ofFp f subs).getLast? with
+  | none =>
+    have : ofFp f subs = [] := by simpa using hs
+    simp [lastOr, this]
+  | some x =>
+    simp [lastOr, hs, List.getLast?_append]
+
+/-- while snapshot items remain, the code as it is lets no worker step happen -/
+theorem no_worker_step_while_loading (owner : Nat → Nat) (s : State) (st : Workers.Step) (h : s.snap ≠ []) :
+    step false owner s (.work st) = none := by
+  cases hs : s.snap with
+  | nil => exact absurd hs h
+  | cons u r => simp [step, hs]
+
+namespace Witness
+def fire : Upd := { fp := 1, ver := 1 }
+def resolve : Upd := { fp := 1, ver := 2 }
+/-- the provider holds `fire` when the dispatcher starts; `resolve` arrives on the subscription; the distributor
+    and worker 0 handle it before the snapshot loop reaches the alert. -/
+def sched : List Step := [.work .dist, .work (.apply 0), .load]
+def view (s : State) : List Upd × List Upd × List Upd × Option Upd := (s.snap, s.w.chan, s.w.q 0, s.w.group 1)
+end Witness
+
+open Witness in
+/-- **initial_load_reorder**: with the snapshot routed concurrently with the workers, the schedule is enabled,
+    runs to quiescence and leaves the OLDER version (`fire`) in the group although `resolve` was submitted last. -/
+theorem initial_load_reorder :
+    (run true (fun _ => 0) (init [fire] [resolve] (fun _ => none)) sched).map view = some ([], [], [], some fire) := by
+  decide
+
+open Witness in
+/-- the same schedule is not a schedule of the code as it is -/
+theorem initial_load_reorder_not_sequential :
+    (run false (fun _ => 0) (init [fire] [resolve] (fun _ => none)) sched).map view = none := by
+  decide
+
+open Witness in
+/-- the full statement is false for "initial load concurrent with the workers". -/
+theorem final_is_last_submitted_false_for_concurrent_load :
+    ¬ ∀ (owner : Nat → Nat) (snap subs : List Upd) (sched : List Step) (s : State),
+        run true owner (init snap subs (fun _ => none)) sched = some s → s.snap = [] → s.w.chan = [] → s.w.q 0 = [] →
+        s.w.group 1 = lastOr (ofFp 1 subs) (lastOr (ofFp 1 snap) none) := by
+  intro hall
+  have hv := initial_load_reorder
+  cases hr : run true (fun _ => 0) (init [fire] [resolve] (fun _ => none)) sched with
+  | none => rw [hr] at hv; simp at hv
+  | some s =>
+    rw [hr] at hv
+    simp only [Option.map_some, Option.some.injEq, view, Prod.mk.injEq] at hv
+    obtain ⟨h1, h2, h3, h4⟩ := hv
+    have := hall (fun _ => 0) [fire] [resolve] sched s hr h1 h2 h3
+    rw [h4] at this
+    simp [lastOr, ofFp, fire, resolve] at this
+
+end Load
+
 end AM.Workers
